@@ -222,7 +222,12 @@ fn real_server_outputs(ctx: &Ctx, out: &mut Out, rng: &mut Rng) {
     let n = ctx.share(96, 800);
     for i in 0..n {
         let k = i * ctx.nshards + ctx.shard;
-        let seed = rng.bytes(32);
+        // one run in five uses a seed whose hex form consists of decimal digits only (YAML types
+        // it as a number; every byte is 0x00..0x99 in BCD form)
+        let seed: Vec<u8> = if k % 5 == 1 { (0..32).map(|_| (rng.below(10) * 16 + rng.below(10)) as u8).collect() } else { rng.bytes(32) };
+        if k % 5 == 1 {
+            out.obs("real_server_runs_with_all_digit_seed", 1);
+        }
         let nd = needles("seed", &seed).into_iter().chain(needles("scalar", &clamped_scalar(&seed))).collect::<Vec<_>>();
         let pk = RefKey::from_seed(&seed).public();
         let via_env = k % 2 == 0;
@@ -230,6 +235,21 @@ fn real_server_outputs(ctx: &Ctx, out: &mut Out, rng: &mut Rng) {
         cfg.via_env = via_env;
         cfg.num_workers = Some(*rng.pick(&[1u32, 2, 4]));
         cfg.fault_percentage = Some(*rng.pick(&[0u32, 10]));
+        // optional settings vary too: their own log / error paths must not print the seed either
+        if k % 4 >= 2 {
+            let dir = ctx.scratch.join("persist20");
+            std::fs::create_dir_all(&dir).ok();
+            cfg.client_stats = Some(rng.pick(&["on", "yes", "ON"]).to_string());
+            cfg.persistence_directory = Some(dir);
+            cfg.status_interval = Some(*rng.pick(&[1u32, 10, 600]));
+            out.obs("real_server_runs_with_client_stats", 1);
+        }
+        if k % 8 >= 6 {
+            cfg.health_check_port = Some(free_port(true));
+        }
+        if k % 2 == 1 {
+            cfg.batch_size = Some(*rng.pick(&[1u32, 64]));
+        }
         let failing = k % 3 == 2;
         let mut pairs: Vec<(String, String)> = cfg.pairs().into_iter().map(|(a, b)| (a.to_string(), b)).collect();
         let mut what = "serving".to_string();
